@@ -3,7 +3,7 @@ import re
 from engine.h4v import H, libhdf_units, native_replay
 
 META = dict(
-    bounds=["S1: 4 workloads (H write, Vdata+Vgroup write, read, update) x fault index k over the stdio calls of the fault-free run (quick: every 4th k offset by VERIF_SEED; "
+    bounds=["S1: 4 workloads (H write, Vdata+Vgroup write, read, update) x fault index k over the stdio calls of the fault-free run (quick: every 5th k offset by VERIF_SEED; "
             "thorough: every k) x {single, sticky} x short-count {0, n-1}; payload symbolic"],
     stubs=["stdio = models/memio.c with a failing call index (fopen/fread/fwrite/fseek/fflush/fclose fail; short counts)", "error stack = codes only", "malloc never fails"],
     outside=["SD/GR/AN workloads", "allocation failure", "'all calls succeeded => bytes identical' is asserted in its contrapositive form (a failed stdio call => some API failure)"],
@@ -35,7 +35,7 @@ def plan(ctx, tier, seed):
     hs = []
     for wl in (0, 1, 10, 11):
         n, phases = ncalls(ctx, wl)
-        step = 4 if tier == "quick" else 1
+        step = 5 if tier == "quick" else 1
         ks = set(range((seed % step), n, step))
         # the flush at the final close (and at Hsync) is where swallowed failures hide: every call of the last API call
         # and of the largest other flush phase is always included
@@ -45,8 +45,8 @@ def plan(ctx, tier, seed):
         ks = sorted(ks)
         for k in ks:
             variants = [(0, 0)] if tier == "quick" else [(0, 0), (1, 0), (0, 3)]
-            if tier == "quick" and k % 8 < 4:
-                variants = [(1, 0)] if (k // 4) % 2 else [(0, 3)]
+            if tier == "quick" and k % 10 < 5:
+                variants = [(1, 0)] if (k // 5) % 2 else [(0, 3)]
             for sticky, short in variants:
                 hs.append(mk(wl, k, sticky, short))
         hs.append(mk(wl, n + 5, 0, 0))  # beyond the run: fault-free sanity
